@@ -150,6 +150,18 @@ func buildSpecs(variant string) ([]*core.Spec, error) {
 		if err := raw.Compile(context.Background(), nil, true); err != nil {
 			return nil, err
 		}
+		if variant == "late-source" {
+			// node "b" got its sources after the specification had been compiled: it has an ActionSource
+			// and a GuardSource but no Action and no Guard.  Every machine that gets there is refused
+			// (UncompiledAction); nothing may be written into the shared specification on the way.
+			b := raw.Nodes["b"]
+			b.Action = nil
+			for _, br := range b.Branches.Branches {
+				if br.GuardSource != nil {
+					br.Guard = nil
+				}
+			}
+		}
 		specs = append(specs, raw)
 	}
 	return specs, nil
@@ -289,6 +301,9 @@ func c12Scenarios(thorough bool) []c12Scenario {
 		out = append(out, c12Scenario{Kind: "shared", Spec: variant, Walkers: []walker{ws[0], ws[2]}})
 		out = append(out, c12Scenario{Kind: "shared", Spec: variant, Walkers: []walker{ws[1], ws[3], ws[2]}})
 	}
+	// machines meeting for the first time at a node whose sources arrived after Compile
+	out = append(out, c12Scenario{Kind: "shared", Spec: "late-source", Walkers: []walker{ws[0], ws[1]}})
+	out = append(out, c12Scenario{Kind: "shared", Spec: "late-source", Walkers: []walker{ws[0], ws[7], ws[1]}})
 	out = append(out, c12Scenario{Kind: "swap", Spec: "custom-error-node", Walkers: []walker{ws[2], ws[3]}, Swaps: 1})
 	out = append(out, c12Scenario{Kind: "swap", Walkers: []walker{ws[0]}, Swaps: 1})
 	out = append(out, c12Scenario{Kind: "swap", Walkers: []walker{ws[0], ws[1]}, Swaps: 1})
@@ -297,7 +312,7 @@ func c12Scenarios(thorough bool) []c12Scenario {
 	return out
 }
 
-const c12RuleText = "one compiled specification (in three variants: action errors routed to a handler node; a custom ErrorNode name with failing walks arriving at a literal error node the compiled spec lacks; no automatic error node - the latter two and the whole race pass with freshly compiled objects per execution; native and ECMAScript actions and guards, succeeding, failing and rejecting, each with yield points; one walker whose context is cancelled at its 3rd tick) walked by 2-3 threads with distinct states and messages; every interleaving at the yields (and, for the updatable spec, at the atomic load/store) with at most k deviations; oracle: each walk's stride-by-stride result equals its solo result (for swaps: its solo result under exactly one version, never an older version than one whose SetSpec had returned before the walk began); deep snapshot of the spec unchanged; race pass: ThreadSanitizer silent. states = scenarios, transitions = scheduler steps, traces = schedules; non-trivial = schedule with at least one deviation."
+const c12RuleText = "one compiled specification (in four variants: action errors routed to a handler node; a custom ErrorNode name with failing walks arriving at a literal error node the compiled spec lacks; no automatic error node; a node whose action and guard sources arrived after Compile, where every machine is refused - all but the first and the whole race pass with freshly compiled objects per execution; native and ECMAScript actions and guards, succeeding, failing and rejecting, each with yield points; one walker whose context is cancelled at its 3rd tick) walked by 2-3 threads with distinct states and messages; every interleaving at the yields (and, for the updatable spec, at the atomic load/store) with at most k deviations; oracle: each walk's stride-by-stride result equals its solo result (for swaps: its solo result under exactly one version, never an older version than one whose SetSpec had returned before the walk began); deep snapshot of the spec unchanged; race pass: ThreadSanitizer silent. states = scenarios, transitions = scheduler steps, traces = schedules; non-trivial = schedule with at least one deviation."
 
 // C12: a compiled spec is shared immutable data; spec updates are atomic.
 func C12(c *vh.Ctx) { sharedCheck(c, "C12") }
@@ -314,7 +329,7 @@ func sharedCheck(c *vh.Ctx, prop string) {
 	if race {
 		bound = 1
 	}
-	variants := []string{"", "custom-error-node", "no-auto-error-node", "permanent"}
+	variants := []string{"", "custom-error-node", "no-auto-error-node", "permanent", "late-source"}
 	specsOf := map[string][]*core.Spec{}
 	beforeOf := map[string][]string{}
 	for _, variant := range variants {
